@@ -14,8 +14,10 @@ import (
 	"go/token"
 	"go/types"
 	"math/big"
+	"os"
 	"sort"
 	"strings"
+	"time"
 
 	"golang.org/x/tools/go/ssa"
 )
@@ -168,12 +170,15 @@ type prover struct {
 	seenAx  map[string]bool
 	notes   []string
 	typeInv map[string]int64 // "Type.field" -> minimal length guaranteed by a checked type invariant
+	phiBusy map[*ssa.Phi]bool
+	phiDone map[*ssa.Phi]bool
 }
 
 type boundsEngine struct {
-	c       *Ctx
-	writers map[string]map[*ssa.Function]bool
-	typeInv map[string]int64
+	lemmaBudget int
+	c           *Ctx
+	writers     map[string]map[*ssa.Function]bool
+	typeInv     map[string]int64
 }
 
 func newBoundsEngine(c *Ctx) *boundsEngine {
@@ -668,11 +673,79 @@ func (p *prover) linOf(v ssa.Value, d int) lin {
 		}
 	case *ssa.Phi:
 		a := linAtom("v:" + regID(v))
-		// loop counter: phi(init, phi + k) with k >= 0  =>  phi >= init ; k <= 0 => phi <= init
+		if p.phiBusy == nil {
+			p.phiBusy = map[*ssa.Phi]bool{}
+		}
+		if p.phiDone == nil {
+			p.phiDone = map[*ssa.Phi]bool{}
+		}
+		if p.phiBusy[y] || p.phiDone[y] {
+			return a
+		}
+		p.phiBusy[y] = true
+		defer func() {
+			delete(p.phiBusy, y)
+			if d < 6 {
+				p.phiDone[y] = true
+			}
+		}()
+		// loop counter: on every back edge the value is >= phi (resp. <= phi), as entailed by the
+		// linear form of the edge and the axioms collected for it (covers i++ twice on one path and
+		// counters advanced through a merge of i and i+1)  =>  phi >= init (resp. phi <= init).
+		// A merge of values that differ from one base by constants is bounded by the extremes.
 		var inits []ssa.Value
 		step := 0
 		okc := true
-		for _, e := range y.Edges {
+		isLoop := false
+		for i := range y.Edges {
+			if y.Block().Dominates(y.Block().Preds[i]) {
+				isLoop = true
+			}
+		}
+		if !isLoop && d < 8 {
+			// join of alternatives: base + c_i
+			var base *lin
+			var lo, hi *big.Rat
+			same := true
+			for _, e := range y.Edges {
+				le := p.linOf(e, d+1)
+				nb := newLin().comb(le, big.NewRat(1, 1))
+				nb.c = new(big.Rat)
+				if base == nil {
+					base = &nb
+					lo, hi = new(big.Rat).Set(le.c), new(big.Rat).Set(le.c)
+					continue
+				}
+				if nb.String() != base.String() {
+					same = false
+					break
+				}
+				if le.c.Cmp(lo) < 0 {
+					lo = new(big.Rat).Set(le.c)
+				}
+				if le.c.Cmp(hi) > 0 {
+					hi = new(big.Rat).Set(le.c)
+				}
+			}
+			if same && base != nil && len(base.t) > 0 {
+				l := newLin().comb(*base, big.NewRat(1, 1))
+				l.c = lo
+				h := newLin().comb(*base, big.NewRat(1, 1))
+				h.c = hi
+				p.axiom(leq(l, a, "merge of alternatives: at least the smallest"))
+				p.axiom(leq(a, h, "merge of alternatives: at most the largest"))
+			}
+			return a
+		}
+		for i, e := range y.Edges {
+			if e == ssa.Value(y) {
+				continue
+			}
+			if !y.Block().Dominates(y.Block().Preds[i]) {
+				inits = append(inits, e)
+				continue
+			}
+			// fast path: phi + k
 			if b, isB := e.(*ssa.BinOp); isB && (b.Op == token.ADD || b.Op == token.SUB) && b.X == ssa.Value(y) {
 				if k, isK := ConstInt(b.Y); isK {
 					if b.Op == token.SUB {
@@ -690,7 +763,31 @@ func (p *prover) linOf(v ssa.Value, d int) lin {
 					continue
 				}
 			}
-			inits = append(inits, e)
+			if d > 2 {
+				okc = false // nested: do not pay for entailment checks
+				continue
+			}
+			le := p.linOf(e, d+1)
+			// only the axioms that mention the atoms of this edge matter
+			var rel []ineq
+			for _, ax := range p.axioms {
+				for at := range le.t {
+					if _, has := ax.e.t[at]; has {
+						rel = append(rel, ax)
+						break
+					}
+				}
+			}
+			switch {
+			case step >= 0 && entails(rel, leq(a, le, "")):
+				if !entails(rel, leq(le, a, "")) {
+					step = 1
+				}
+			case step <= 0 && entails(rel, leq(le, a, "")):
+				step = -1
+			default:
+				okc = false
+			}
 		}
 		if okc && len(inits) == 1 && step != 0 && d < 6 {
 			in := p.linOf(inits[0], d+1)
@@ -906,6 +1003,19 @@ func (p *prover) goalsFor(in ssa.Instruction) []ineq {
 
 // proveSite: every goal of the index/slice instruction.
 func (be *boundsEngine) proveSite(fn *ssa.Function, in ssa.Instruction, depth int) (bool, string) {
+	if os.Getenv("UCFG_SLOWSITES") != "" && depth == 0 {
+		t0 := time.Now()
+		defer func() {
+			if dt := time.Since(t0); dt > 500*time.Millisecond {
+				fmt.Fprintf(os.Stderr, "SLOW %s %s %v\n", fn.Name(), be.c.Pos(in.Pos()), dt)
+			}
+		}()
+	}
+	if depth == 0 {
+		// bound the lemma search per top-level site: a site that needs more is reported as unproved
+		// (and is then an exception or a finding), never silently accepted
+		be.lemmaBudget = 6000
+	}
 	p := be.prover(fn, depth)
 	goals := p.goalsFor(in)
 	if len(goals) == 0 {
@@ -1033,6 +1143,10 @@ func (be *boundsEngine) phiLemmas(p *prover, g ineq, facts []ineq, depth int) []
 // inductLemma proves `lemma` (which mentions the phi's atom) on every incoming edge, assuming it for
 // the edges whose value is computed from the phi itself; at least one edge must be a base case.
 func (be *boundsEngine) inductLemma(p *prover, phi *ssa.Phi, atom string, isLen bool, lemma ineq, depth int) bool {
+	be.lemmaBudget--
+	if be.lemmaBudget < 0 {
+		return false
+	}
 	coef := lemma.e.t[atom]
 	if coef == nil {
 		return false
